@@ -20,13 +20,13 @@ DEPTH = 10
 THRESHOLDS = ((10, 10, 2, 0.5), (20, 10, 2, 0.5), (10, 20, 5, 0.5), (10, 10, 1, 0.2), (10, 10, 2, 0.8))
 
 
-def run_pipeline(gene, p, table, extra, cnlist):
+def run_pipeline(gene, p, table, extra, cnlist, hq=None):
     from aldy.solutions import CNSolution
     from aldy.major import estimate_major
     from aldy.minor import estimate_minor
     from ..ref import minor_ref
 
-    cov = tables.to_coverage(gene, p, table, extra=extra)
+    cov = tables.to_coverage(gene, p, table, extra=extra, hq=hq)
     cn = CNSolution(gene, 0, list(cnlist))
     majors = estimate_major(gene, cov, cn, "any")
     majors = sorted(majors, key=lambda m: (int(1000 * m.score), m._solution_nice()))
@@ -142,6 +142,11 @@ class C15(Check):
             mj, mn = mj1, mn1
         else:
             mj, mn = mj0, mn0
+            # qualifying reads are interchangeable: the same table with every observation exactly AT both quality
+            # thresholds (they "meet" them) gives the same major and minor solutions
+            mj2, mn2, _ = run_pipeline(gene, p, table, (), cnlist, hq=(mq_, q_))
+            if mj2 != mj0 or mn2 != mn0:
+                v.append(("quality/reads-at-the-threshold-not-counted", f"{planted} thresholds {th}: qualities (60,60) give {mj0[:2]} / {mn0[:1]}, qualities {(mq_, q_)} give {mj2[:2]} / {mn2[:1]}"))
         # invariant: support of everything that is called
         obs = {pos: {op: [tables.HQ] * n for op, n in d.items()} for pos, d in table.items()}
         for pos, op, j, qq in lowq:
